@@ -52,9 +52,9 @@ def flat(l): return [x for t in l for x in t]
 # ----------------------------------------------------------------------------------------------- harness access
 class H:
     def __init__(self, hb, workdir): self.hb = hb; self.wd = workdir; self.calls = 0
-    def run(self, lines):
+    def run(self, lines, env=None):
         self.calls += len(lines)
-        rc, out, err = core.run_harness(self.hb, lines, self.wd, timeout=900)
+        rc, out, err = core.run_harness(self.hb, lines, self.wd, timeout=900, env=env)
         def sp(o):
             try: return core.fparse(o)
             except ValueError: return None, None      # noise on the harness' stdout
@@ -77,6 +77,27 @@ def cols(res):
 def bits(c): return [x.hex() for x in c]
 def same_bits(a, b): return len(a) == len(b) and all(x.hex() == y.hex() for x, y in zip(a, b))
 def colmax(c): return max([abs(x) for x in c] + [0.0])
+THREAD_REL = 1e-12
+THREAD_STATS = dict(p1_entries=0, p1_not_bitwise=0, p1_worst_rel=0.0, p0_entries=0)
+def same_col(spec, a, b):
+    """one thread: bitwise.  Several threads (spec['threads']>1, DipSourceMat only): the rows of the P0 unknowns
+    (operatorDipolePot: each triangle writes its own row -- owner computes) bitwise, the rows of the P1 unknowns
+    (operatorDipolePotDer: contributions of the triangles around a vertex summed inside `omp critical` in arrival order)
+    at the rounding class THREAD_REL*max|column|; zero columns exactly zero."""
+    if spec.get("threads", 1) <= 1 or spec["fn"] != "dsm": return same_bits(a, b)
+    if len(a) != len(b): return False
+    tri = set(spec.get("tri_rows", [])); sc = max(colmax(a), colmax(b))
+    for k, (x, y) in enumerate(zip(a, b)):
+        if k in tri or sc == 0:
+            THREAD_STATS["p0_entries"] += 1
+            if x.hex() != y.hex(): return False
+        else:
+            THREAD_STATS["p1_entries"] += 1
+            if x.hex() != y.hex():
+                THREAD_STATS["p1_not_bitwise"] += 1; THREAD_STATS["p1_worst_rel"] = max(THREAD_STATS["p1_worst_rel"], abs(x - y) / sc)
+            if not abs(x - y) <= THREAD_REL * sc: return False
+    return True
+
 def first_diff(a, b):
     for k, (x, y) in enumerate(zip(a, b)):
         if x.hex() != y.hex(): return k
@@ -130,7 +151,7 @@ def judge(spec, res):
         if len(full) != n: out.append(("locality: wrong number of columns", "%s returned %d columns for %d dipoles" % (fn, len(full), n))); return out
         for i in range(n):
             s = M[1 + i]
-            if s is None or len(s) != 1 or not same_bits(s[0], full[i]):
+            if s is None or len(s) != 1 or not same_col(spec, s[0], full[i]):
                 k = first_diff(s[0], full[i]) if s else -1
                 out.append(("locality: column of a batch differs from the dipole alone",
                             "%s: column %d of the batch of %d dipoles differs from the column of dipole %d computed alone (first differing row %d: batch %r alone %r)"
@@ -138,10 +159,10 @@ def judge(spec, res):
                 spec["_bad"] = i
                 break
         re = M[1 + n]; p = spec["p"]
-        if re is None or len(re) != len(p) or any(not same_bits(re[k], full[p[k]]) for k in range(len(p))):
+        if re is None or len(re) != len(p) or any(not same_col(spec, re[k], full[p[k]]) for k in range(len(p))):
             out.append(("locality: re-indexed batch", "%s: the batch re-indexed by %s (permutation with repeats/omissions) does not give the re-indexed columns" % (fn, p)))
         a, b = M[2 + n], M[3 + n]; k = spec["cut"]
-        if a is None or b is None or len(a) + len(b) != n or any(not same_bits(x, y) for x, y in zip(a + b, full)):
+        if a is None or b is None or len(a) + len(b) != n or any(not same_col(spec, x, y) for x, y in zip(a + b, full)):
             out.append(("locality: split batch", "%s: computing dipoles [0,%d) and [%d,%d) separately does not give the columns of the whole batch" % (fn, k, k, n)))
         for i in spec.get("zero_cols", []):
             if any(x.hex() != (0.0).hex() for x in full[i]):
@@ -198,7 +219,7 @@ def judge(spec, res):
         if A is None or B is None:
             if (A is None) != (B is None): out.append(("named domain: exception", "%s: naming the domain throws / locating throws, the other does not" % fn))
             return out
-        if len(A) != len(B) or any(not same_bits(a, b) for a, b in zip(A, B)):
+        if len(A) != len(B) or any(not same_col(spec, a, b) for a, b in zip(A, B)):
             out.append(("named domain: differs from located", "%s: naming domain #%d explicitly gives other columns than letting the library locate the dipoles (which all lie in it)" % (fn, spec["dom"])))
         return out
     if r == "zero":
@@ -342,9 +363,28 @@ def gen_model_specs(rng, h, mid, m, quick, rules=None, consts=None):
         nd = rng.randrange(ndom)
         values.append((vline(1, CFGS[1], nd, [], []), dsm_line(mid, CFGS[1], nd, dips), "DipSourceMat named=%d" % nd))
         values.append((vline(2, CFGS[0], -1, [pt for pt, w in pk], [w for pt, w in pk]), ip_line(mid, -1, [pt for pt, w in pk], dips), "DipSource2InternalPotMat"))
+    # rows of the P0 unknowns (triangle indices below the size), for the several-thread comparison
+    tri_rows = set(); z = geo_ints; q = 2
+    for _d in range(ndom):
+        nb = z[q + 2]; q += 3
+        for _b in range(nb):
+            no = z[q + 1]; q += 2
+            for _o in range(no):
+                nt = z[q + 2]; q += 3
+                for _t in range(nt):
+                    if z[q] < geo_ints[0]: tri_rows.add(z[q])
+                    q += 5
+    threaded = []
+    for nth in (2, 4):
+        cfg = CFGS[1] if nth == 2 else CFGS[0]
+        threaded.append(dict(fn="dsm", rel="locality", mid=mid, cfg=list(cfg[:3]), dips=dips, p=reidx(len(dips)), cut=rng.randint(0, len(dips)), zero_cols=zero_cols, threads=nth, tri_rows=sorted(tri_rows)))
+        for d in sorted(by_dom)[:2]:
+            inside = [tuple(pt) + mom() for pt, w in by_dom[d][:3]]
+            if inside: threaded.append(dict(fn="dsm", rel="named", mid=mid, cfg=list(cfg[:3]), dips=inside, dom=d, threads=nth, tri_rows=sorted(tri_rows)))
+        threaded.append(dict(fn="ip", mid=mid, pts=pts, rel="locality", dips=dips, p=reidx(len(dips)), cut=rng.randint(0, len(dips)), zero_cols=zero_cols, threads=nth))
     info = dict(kind=m["info"].get("topology"), domains=ndom, size=geo_ints[0], dipoles=len(dips), zero_cond_dipoles=len(zero_cols),
                 dipoles_per_domain={str(d): len(v) for d, v in by_dom.items()})
-    return specs, structs, info, values
+    return specs, structs, info, values, threaded
 
 def meg_specs(rng, quick):
     specs = []
@@ -359,12 +399,12 @@ def meg_specs(rng, quick):
         specs.append(dict(sp, rel="add", dips=dips, q2=[models.random_unit(rng) for _ in dips]))
     return specs
 
-def run_specs(ck, h, specs, mdl_of):
+def run_specs(ck, h, specs, mdl_of, env=None):
     """batch-run the specs; returns counts; reports violations (with minimisation for locality)"""
     lines = []; idx = []
     for s in specs:
         l = plan(s); idx.append((len(lines), len(l))); lines += l
-    res = h.run(lines)
+    res = h.run(lines, env)
     nfail = 0
     for s, (a, n) in zip(specs, idx):
         fails = judge(s, res[a:a + n])
@@ -377,11 +417,12 @@ def run_specs(ck, h, specs, mdl_of):
                 for j in range(len(s["dips"])):
                     if j == i: continue
                     ps = dict(s, rel="pair", dips=[s["dips"][j], s["dips"][i]])
-                    if judge(ps, h.run(plan(ps))): best = ps; break
+                    if judge(ps, h.run(plan(ps), env)): best = ps; break
                 if best is not None:
                     rep["spec"] = {k: v for k, v in best.items() if not k.startswith("_") and k not in ("p", "cut", "zero_cols")}
                     text += "; minimised to the two dipoles %s" % (best["dips"],)
-            ck.violation("%s %s" % (fn_name(s), sig), text, rep)
+            if s.get("threads", 1) > 1: text += " [OMP_NUM_THREADS=%d: P0 rows bitwise, P1 rows at %g*max|column|]" % (s["threads"], THREAD_REL); rep["env"] = dict(OMP_NUM_THREADS=str(s["threads"]))
+            ck.violation("%s %s%s" % (fn_name(s), sig, " (several threads)" if s.get("threads", 1) > 1 else ""), text, rep)
     return nfail
 
 def main(replay=None):
@@ -401,7 +442,7 @@ def main(replay=None):
                 m = rp["model"]; m["meshes"] = [(n, [tuple(v) for v in vs], [tuple(t) for t in ts]) for n, vs, ts in m["meshes"]]
                 model_store[s.get("mid")] = m
                 models.write_model(m, os.path.join(h.wd, "m%d" % s["mid"]))
-            run_specs(ck, h, [s], mdl_of)
+            run_specs(ck, h, [s], mdl_of, env=rp.get("env"))
         elif kind == "integrator":
             mo = core.run_model([rp["model_case"]]); ho = h.run([rp["harness_case"]])
             judge_integ(ck, [(rp["model_case"], rp["harness_case"], rp.get("what", {}))], mo, ho, h)
@@ -453,7 +494,10 @@ def main(replay=None):
         if g is None:
             ck.violation("harness: geometry", "generated model %d (%s) could not be loaded by the library" % (mid, kind), dict(kind="harness", model=m), found_input=False)
             continue
-        specs, structs, info, values = g; infos.append(info)
+        specs, structs, info, values, threaded = g; infos.append(info)
+        for nth in (2, 4):
+            ts = [t for t in threaded if t["threads"] == nth]
+            nspec_fail += run_specs(ck, h, ts, mdl_of, env=dict(OMP_NUM_THREADS=str(nth))); allspecs += ts
         judge_values(h, values, vstats)
         nspec_fail += run_specs(ck, h, specs, mdl_of); allspecs += specs
         for s in specs:
@@ -472,7 +516,7 @@ def main(replay=None):
 
     rel_dist = {}
     for s in allspecs:
-        k = "%s/%s" % (s["fn"], s["rel"]); rel_dist[k] = rel_dist.get(k, 0) + 1
+        k = "%s/%s%s" % (s["fn"], s["rel"], "/threads=%d" % s["threads"] if s.get("threads", 1) > 1 else ""); rel_dist[k] = rel_dist.get(k, 0) + 1
     ck.cov.update(evaluations=h.calls + len(ic), distinct_nontrivial=len(allspecs) + nstruct + istats["nontrivial"],
                   rule="distinct = relation instances (model x integrator x relation) + structure cases + integrator cases with at least one refinement call or a non-zero value; "
                        "heads: nested / split hemispheres / sibling inclusions / non-conductive inclusion at 42-vertex meshes, half of them moved+scaled; "
@@ -481,6 +525,7 @@ def main(replay=None):
                   samples=[json.dumps({k: v for k, v in allspecs[0].items() if k not in ("dips",)})[:300], ic[len(ic) // 2][1][:200]],
                   op_distribution=rel_dist, models=infos, integrator=istats, structure_cases=nstruct, structure_mismatches=struct_mis,
                   relation_failures=nspec_fail, traces_validated_against_impl=nstruct + len(ic) + vstats["agree_cases"],
+                  several_threads=dict(THREAD_STATS, threads=[2, 4], asserted="DipSourceMat: P0 rows (operatorDipolePot, owner computes) bitwise, P1 rows (operatorDipolePotDer, omp critical accumulation in arrival order) within %g*max|column|, zero columns exactly zero; DipSource2InternalPotMat (no parallel loop): bitwise; DipSource2MEGMat: no parallel loop, one-thread run only" % THREAD_REL),
                   value_tie=dict(vstats, mismatches=vstats["mismatches"][:5], note="complete float model (Sources.DSM/DS2IP/DS2MEG + AdaptInt.integrate + Geom/Kernels.v) vs the real matrices, rounding class 1e-10*max|column|; informative: a mismatch alone is reported as a note, not as a violation (the theorems are parametric in the kernels)"),
                   additivity_worst_relative_discrepancy=worst_add,
                   additivity_note="adaptive: measured |A(q1+q2)-A(q1)-A(q2)|/max|column| against %g*tolerance -- empirical, not a theorem (adaptive_additive_refuted)" % ADD_ADAPTIVE_FACTOR)
